@@ -1,6 +1,6 @@
 """C18 — written output is fully determined by the input, never by the buffer's old bytes (structural clauses)."""
 from mirlib import *
-import t_writeonly, r_handle, r_strsafe
+import t_writeonly, r_handle, r_strsafe, p_c09, p_c10
 
 MANIFEST = {
     'category': 'other',
@@ -11,7 +11,10 @@ MANIFEST = {
             '(D2) a destination position advances only inside write_code_unit (one store, one += 1) or by splitting off exactly the bytes that '
             'are then each stored once (ByteDestination::write_N), and only through linear handles (R-HANDLE); (D3) set_len(old_len + written) '
             'with written being the converter\'s own written component, last, after the capacity assert; (D4) minimally_init is applied only to '
-            'spare_capacity_mut() by the String/Vec receivers. That the bulk ASCII kernels store every unit of the count they return is covered '
+            'spare_capacity_mut() by the String/Vec receivers; (D5) the two wrapper-level places that store output without a handle agree with the '
+            'count they report: write_ncr returns exactly the number of contiguous stores it makes for every digit count (shared with C09-D2), and '
+            'the BOM-replay helpers hand the remaining input a destination that starts exactly at the count already written and report the sum '
+            '(shared with C10-D1 replay rules). That the bulk ASCII kernels store every unit of the count they return is covered '
             'only as far as their safe-Rust zip/stride structure shows and is otherwise not decided.',
     'note': 'Trusted: rustc MIR, mirx, rule library.',
     'technique': 'information-flow rule (no loads from output memory) over all MIR bodies + handle typestate + set_len shape rules',
@@ -39,4 +42,7 @@ def run(rep, facts, tier):
                         mi.append(name)
                         rep.ob('C18-D4', name, ok, 'minimally_init is applied to something other than vec.spare_capacity_mut()', sp_str(b.blocks[bi]['tsp']), None, c)
             rep.floor('C18-D4', 'minimally_init call sites', len(mi), 6, c)
+        p_c09.write_ncr(rep, f, c)
+        for sink in ('utf8', 'utf16'):
+            p_c10.helpers(rep, f, c, sink)
     return ('other', MANIFEST['text'], [])
